@@ -239,9 +239,69 @@ pub fn c09_reused_handle_case(text: &[u8], out: &mut Vec<Violation>) -> u64 {
 	n
 }
 
+/// The same scenario on the path handle of a whole reference (the handle's window then starts
+/// after a scheme / authority, and an edit may have to insert or remove the leading '/').
+pub fn c09_reused_handle_embedded_case(text: &[u8], out: &mut Vec<Violation>) -> u64 {
+	let mut n = 0;
+	let segs: [&[u8]; 5] = [b"..", b".", b"", b"a", b"a:b"];
+	for seg in segs {
+		for clear_first in [false, true] {
+			n += 1;
+			let input = json!({"fam": fam_name(), "text": bytes_json(text), "pushed": bytes_json(seg), "clear_first": clear_first});
+			let r = guard(|| {
+				let s = Segment::new(inp(seg).unwrap()).ok().unwrap();
+				let mut b1 = rirefbuf_of(text).expect("valid reference");
+				{
+					let mut h = b1.path_mut();
+					if clear_first {
+						h.clear();
+					}
+					h.push(s);
+					h.normalize();
+					h.push(s);
+					h.normalize();
+				}
+				let mut b2 = rirefbuf_of(text).expect("valid reference");
+				if clear_first {
+					b2.path_mut().clear();
+				}
+				b2.path_mut().push(s);
+				b2.path_mut().normalize();
+				b2.path_mut().push(s);
+				b2.path_mut().normalize();
+				(b1.as_bytes().to_vec(), b2.as_bytes().to_vec())
+			});
+			match r {
+				Guard::Ok((one, fresh)) => {
+					if one != fresh {
+						out.push(
+							Violation::new("C09", "reused-handle-embedded", "normalize-after-edit", input)
+								.obs(format!("one handle: {:?}", lossy(&one)))
+								.exp(format!("fresh handles: {:?}", lossy(&fresh))),
+						);
+					}
+				}
+				Guard::Panic(pm) => out.push(Violation::new("C09", "reused-handle-embedded", "panic", input).feat("panic_at", panic_site(&pm)).obs(format!("panic: {pm}")).exp("no panic")),
+			}
+		}
+	}
+	n
+}
+
 pub fn c09_replay(check: &str, input: &Value) -> Vec<Violation> {
 	let mut out = Vec::new();
 	match check {
+		"reused-handle-embedded" => {
+			if let Some(t) = json_bytes(&input["text"]) {
+				let mut all = Vec::new();
+				c09_reused_handle_embedded_case(&t, &mut all);
+				for v in all {
+					if v.input == *input {
+						out.push(v);
+					}
+				}
+			}
+		}
 		"reused-handle" => {
 			if let Some(t) = json_bytes(&input["path"]) {
 				let mut all = Vec::new();
